@@ -110,9 +110,54 @@ package lexer
 // api.go
 // ---------------------------------------------------------------------------------------------
 
+// Position arithmetic. nlc / lastnl / rcount are the (trusted) meanings of strings.Count(s,"\n"),
+// strings.LastIndex(s,"\n") and utf8.RuneCountInString(s); see /verif/stubs/stdlib.spec.
+//@ spec fn nlc(s string) int = uf("nlc", "Int", s)
+//@ spec fn lastnl(s string) int = uf("lastnl", "Int", s)
+//@ spec fn rcount(s string) int = uf("rcount", "Int", s)
+//@ spec fn cutok(a string, b string) bool = uf("cutok", "Bool", a, b)
+//@ spec fn lineStart(in string, o int) int = 1 + lastnl(in[:o])
+//@ pred posOK(in string, pos Position) = 0 <= pos.Offset && pos.Offset <= len(in) && pos.Line == 1 + nlc(in[:pos.Offset])
+//@      && pos.Column == 1 + rcount(in[lineStart(in, pos.Offset):pos.Offset])
+
+// Trusted string axioms, applied only as ground instances (use ...). Conformance-tested against the
+// real strings/utf8 functions by /verif/bounded (thorough tier).
+//@ lemma subSplit(s string, i int, j int, k int)
+//@   axiom
+//@   requires 0 <= i && i <= j && j <= k && k <= len(s)
+//@   ensures s[i:k] == s[i:j] + s[j:k]
+//@ lemma nlcCat(a string, b string)
+//@   axiom
+//@   ensures nlc(a + b) == nlc(a) + nlc(b)
+//@ lemma nlFacts(s string)
+//@   axiom
+//@   ensures nlc(s) >= 0 && -1 <= lastnl(s) && lastnl(s) < len(s) && (lastnl(s) == -1) == (nlc(s) == 0)
+//@ lemma lastnlCat(a string, b string)
+//@   axiom
+//@   ensures lastnl(a + b) == ite(nlc(b) > 0, len(a) + lastnl(b), lastnl(a))
+//@ lemma rcCat(a string, b string)
+//@   axiom
+//@   requires cutok(a, b)
+//@   ensures rcount(a + b) == rcount(a) + rcount(b)
+//@ lemma rcAfterNL(s string)
+//@   axiom
+//@   requires lastnl(s) >= 0
+//@   ensures rcount(s[lastnl(s):]) == 1 + rcount(s[lastnl(s)+1:])
+
 //@ func (*Position).Advance [C04 C07]
+//@   ghost in string
 //@   modifies *p
 //@   ensures p.Offset == old(p.Offset) + len(span) && p.Filename == old(p.Filename)
+//@   ensures @posOK old(posOK(in, *p)) && old(p.Offset) + len(span) <= len(in) && span == in[old(p.Offset):old(p.Offset)+len(span)]
+//@        && cutok(in[lineStart(in, old(p.Offset)):old(p.Offset)], span) ==> posOK(in, *p)  [C04]
+//@   use subSplit(in, 0, p.Offset, p.Offset + len(span)) at entry
+//@   use nlcCat(in[:p.Offset], span) at entry
+//@   use nlFacts(span) at entry
+//@   use nlFacts(in[:p.Offset]) at entry
+//@   use lastnlCat(in[:p.Offset], span) at entry
+//@   use subSplit(in, lineStart(in, p.Offset), p.Offset, p.Offset + len(span)) at entry
+//@   use rcCat(in[lineStart(in, p.Offset):p.Offset], span) at entry
+//@   use rcAfterNL(span) at entry
 
 // ---------------------------------------------------------------------------------------------
 // stateful.go
